@@ -4,6 +4,7 @@ use crate::*;
 #[derive(Default)]
 pub struct Exec {
     pub sim: Option<simx::SimCtx>,
+    pub tim: Option<c34::TimCtx>,
 }
 
 impl Exec {
@@ -12,6 +13,7 @@ impl Exec {
         match toks[0] {
             "case" => line.trim().to_string(),
             "sim" => simx::exec(&mut self.sim, &toks[1..]),
+            "tim" => c34::exec(&mut self.tim, &toks[1..]),
             "off" => c35::exec(false, &toks[1..]),
             "offt" => c35::exec(true, &toks[1..]),
             "wop" => c15::exec(&toks[1..]),
